@@ -572,7 +572,8 @@ def label_name_rules(m, rid):
             if not ok:
                 r.fail("extract_label|%s" % text, "extract_label(%r) gives %r, expected %r" % (text, got, want), m.loc(el))
         for text, want in (("outer: do i=1,2", ("outer", "do i=1,2")), ("a :if (x) then", ("a", "if (x) then")), ("x = y", (None, "x = y")),
-                           ("Loop_1:  do", ("Loop_1", "do")), ("x(1:2) = 3", (None, "x(1:2) = 3")), ("print *, 'a: b'", (None, "print *, 'a: b'")),
+                           ("Loop_1:  do", ("Loop_1", "do")), ("outer: &", ("outer", "&")), ("outer:&", ("outer", "&")), ("outer :", ("outer", "")),
+                           ("x(1:2) = 3", (None, "x(1:2) = 3")), ("print *, 'a: b'", (None, "print *, 'a: b'")),
                            ("a::b", (None, "a::b"))):
             r.instances += 1
             got = ev.run_function(ec.node, [text])
